@@ -7,14 +7,15 @@ A2 == {32, Ord["a"], Ord["i"], Ord["n"], Ord["o"], Ord["t"], Ord["("], Ord[")"],
 A3 == {TAB, CR, LF, Ord["t"], Ord["r"], Ord["u"], Ord["e"], Ord["T"], Ord["_"], Ord["."], 8364, Ord["["], Ord["&"], Ord["|"]}
 A4 == {32, Ord["h"], Ord["i"], Ord["+"], Ord["-"], Ord["1"], Ord["("], Ord["x"], Ord["="], LF, Ord["'"], 233, Ord["?"], Ord[":"]}
 \* characters Unicode calls white space but the engine does not (NBSP, VT, FF, NEL, ideographic space): ordinary name characters here
-A5 == {32, Ord["\""], 160, 11, 12, 133, 12288, Ord["f"], Ord["("], Ord[")"], Ord["1"], Ord["+"], Ord["'"], Ord["."]}
-A6 == {32, 126, 64, 8800, Ord["a"], Ord["1"], Ord["("], Ord["+"], Ord["="], 92, LF, Ord[";"], 127, Ord["'"]}
+\* ... and characters whose low byte is that of a blank: U+2020 (0x20), U+010A (0x0A)
+A5 == {32, Ord["\""], 160, 11, 12, 133, 12288, Ord["f"], Ord["("], Ord[")"], Ord["1"], 8224, Ord["'"], 266}
+A6 == {32, 126, 64, 8800, Ord["a"], Ord["1"], 58, 63, Ord["="], 92, Ord["+"], Ord[";"], 127, Ord["'"]}
 AllAlpha == A1 \cup A2 \cup A3 \cup A4 \cup A5 \cup A6
 \* operator sets
 OpsBuiltin == BuiltinOps
 OpsExtended == ExtendedOps
 \* user operators whose first character is neither a letter nor a character of a built-in symbolic operator (whole-word lookup)
-OpsOdd == BuiltinOps \cup {<<126>>, <<64, 64>>, <<8800>>, <<Ord["a"], 126>>}
+OpsOdd == BuiltinOps \cup {<<126>>, <<64, 64>>, <<8800>>, <<Ord["a"], 126>>, <<58, 61>>, <<63, 58>>}      \* ~ @@ U+2260 a~ := ?:
 \* the eight subsets of the three user operators (bit 1: prefix +++, bit 2: postfix ---, bit 4: infix hi) for registration histories
 UPre == {W(<<"+","+","+">>)}
 UPost == {W(<<"-","-","-">>)}
